@@ -194,6 +194,7 @@ def ref_run(sel0, sel, xs, ys, p0, policy=None):
             q = bind(B, "q", p + y)
             tot = bind(B, "tot", tot + q)
         tot = bind(B, "#value", tot)
+        tr.exits.append((tr.tick(), B, "return", tot))
         return tot
 
     def lo(xs_, ys_):
@@ -207,7 +208,9 @@ def ref_run(sel0, sel, xs, ys, p0, policy=None):
             m = bind(A, "m", x * 2)
             r = bind(A, "r", li(x, ys_, A))
             acc = bind(A, "acc", acc + r)
-        return bind(A, "#value", acc)
+        res = bind(A, "#value", acc)
+        tr.exits.append((tr.tick(), A, "return", res))
+        return res
 
     r1 = lo(xs, ys)
     r2 = li(p0, ys, None)
@@ -228,9 +231,60 @@ def _cleanup():
         HY.force_global_clean()
 
 
+def unfocus(sel):
+    return G.CallN(sel.fn, sel.fntag, tuple(c._replace(focus=0) for c in sel.caps),
+                   tuple(unfocus(ch) for ch in sel.children))
+
+
+def check_total(sel, xs, ys, p0, rec=None):
+    """Focus-free variant: a total record is delivered iff every value of every constrained
+    capture satisfies its condition."""
+    from ptera import probing
+
+    env = _env()
+    selt = unfocus(sel)
+    if any(c.vop == "~" and c.value[1] == "throttle" for c in constrained_caps(selt)):
+        return
+    text = G.canonical(selt)
+    sel0 = strip_values(selt)
+    tr, (r1, r2) = ref_run(strip_values(sel), sel, xs, ys, p0)
+    cand = M.total_records(sel0, tr)
+
+    def ok(rec_):
+        for c in constrained_caps(selt):
+            key = c.alias if c.alias is not None else c.name
+            if key in rec_:
+                pred, _ = ref_condition(c)
+                if not all(pred(v) for v in rec_[key]):
+                    return False
+        return True
+
+    expected = [r for r in cand if ok(r)]
+    try:
+        with probing(text, env=env, raw=True).values() as got:
+            FL.lo(list(xs), list(ys))
+            FL.li(p0, list(ys))
+    except BaseException as e:
+        _cleanup()
+        raise PropertyViolation("run", f"probing({text!r}) raised {HY.describe_exc(e)}",
+                                extra={"bucket": "run-total:" + HY.exc_bucket(e)})
+    finally:
+        _cleanup()
+    got = [{k: list(c.values) for k, c in ev.items()} for ev in got]
+    if got != expected:
+        raise PropertyViolation(
+            "total-filter", f"probing({text!r}) on xs={xs} ys={ys} p0={p0}: expected records {expected!r}, got {got!r}")
+    if rec is not None:
+        nt = bool(expected) and len(expected) < len(cand)
+        rec.case(h64(repr((selt, xs, ys, p0, "total"))), nt, {"total-mode"},
+                 sample=lambda: {"selector": text, "xs": xs, "ys": ys, "p0": p0, "records": expected[:3]})
+
+
 def check_e2e(sel, xs, ys, p0, ov_kind, rec=None):
     from ptera import probing
 
+    if ov_kind == "total":
+        return check_total(sel, xs, ys, p0, rec)
     env = _env()
     text = G.canonical(sel)
     sel0 = strip_values(sel)
@@ -416,7 +470,7 @@ def e2e_strategy():
     sorted_ints = ints.map(sorted)
     return st.one_of(
         st.tuples(sel(), ints, ints, small, st.sampled_from([None, "const", "fn"])),
-        st.tuples(sel(), ints, ints, small, st.sampled_from([None, "const", "fn"])),
+        st.tuples(sel(), ints, ints, small, st.sampled_from([None, "const", "fn", "total"])),
         st.tuples(throttle_sel(), sorted_ints, sorted_ints, small, st.none()),
     )
 
